@@ -24,13 +24,30 @@ edition = "2021"
 [workspace]
 
 [dependencies]
-borsh = { path = "%(repo)s/borsh", features = ["derive", "unstable__schema", "rc"] }
+%(deps)s
 
 [profile.dev]
 opt-level = 0
 debug = false
 incremental = false
 '''
+
+
+# the dependency section of a probe crate.  Default: borsh with the derives and the schema feature (borsh-derive/schema);
+# DEPS_NOSCHEMA: the plain `features = ["derive"]` configuration (borsh-derive WITHOUT its `schema` feature: no BorshSchema
+# derive, no `schema(..)` field key); deps_reexport(): no dependency called `borsh` at all, only a crate re-exporting it
+# (what `#[borsh(crate = "..")]` exists for: proc_macro_crate cannot find `borsh` in such a crate's Cargo.toml).
+DEPS_DEFAULT = 'borsh = { path = "%(repo)s/borsh", features = ["derive", "unstable__schema", "rc"] }'
+DEPS_NOSCHEMA = 'borsh = { path = "%(repo)s/borsh", features = ["derive"] }'
+
+
+def reexporter_crate(repo=None):
+    """a tiny library `reexporter` that depends on borsh (derives + schema) and does `pub use borsh;`"""
+    return make_crate('reexporter', {'lib.rs': 'pub use borsh;\n'}, repo)
+
+
+def deps_reexport(repo=None):
+    return 'reexporter = { path = "%s" }' % reexporter_crate(repo)
 
 
 def write_if_changed(path, text):
@@ -41,12 +58,12 @@ def write_if_changed(path, text):
             f.write(text)
 
 
-def make_crate(name, files, repo=None, main=False):
+def make_crate(name, files, repo=None, main=False, deps=None):
     """files: {relative path under src/: text}.  Returns crate dir."""
     repo = repo or REPO
     d = '%s/crates%s/%s' % (CACHE, TAG, name)
     os.makedirs(d + '/src', exist_ok=True)
-    write_if_changed(d + '/Cargo.toml', CARGO_TOML % {'name': name.replace('-', '_'), 'repo': repo})
+    write_if_changed(d + '/Cargo.toml', CARGO_TOML % {'name': name.replace('-', '_'), 'deps': (deps or DEPS_DEFAULT) % {'repo': repo}})
     if not os.path.exists(d + '/Cargo.lock'):
         shutil.copy(repo + '/Cargo.lock', d + '/Cargo.lock')
     keep = set()
@@ -59,7 +76,7 @@ def make_crate(name, files, repo=None, main=False):
     return d
 
 
-def module_crate(name, modules, repo=None, prelude=''):
+def module_crate(name, modules, repo=None, prelude='', deps=None):
     """modules: ordered list of (mod_name, body).  Builds src/lib.rs with one `mod` per item and
     returns (crate dir, [(first_line, last_line, mod_name)])."""
     lines = ['#![allow(dead_code, unused_imports, unused_variables, unused_mut, non_camel_case_types, non_snake_case, unused_parens, clippy::all)]']
@@ -72,7 +89,7 @@ def module_crate(name, modules, repo=None, prelude=''):
         lines += body.split('\n')
         lines.append('}')
         ranges.append((first, len(lines), mod_name))
-    d = make_crate(name, {'lib.rs': '\n'.join(lines) + '\n'}, repo)
+    d = make_crate(name, {'lib.rs': '\n'.join(lines) + '\n'}, repo, deps=deps)
     return d, ranges
 
 
